@@ -2,7 +2,7 @@
 // if A's poll is preempted between its failed try_acquire and the poll of its (already notified) listener,
 // both notify(1) calls are absorbed by A's entry, A then consumes the notification, acquires, and nobody
 // wakes B although a permit is available.
-use async_lock::{Mutex, Semaphore};
+use async_lock::{Mutex, RwLock, RwLockWriteGuard, Semaphore};
 use loom::sync::atomic::{AtomicBool, Ordering};
 use loom::sync::Arc;
 use std::future::Future;
@@ -149,9 +149,133 @@ fn mutex_stale_listener() {
     });
 }
 
+/// C03, schedule half: try_acquire_arc / a poll of acquire_arc racing on 0 and on 1 permit never hand out more guards
+/// than there are permits, and the counter is exact afterwards.
+fn sem_try_race() {
+    let mut b = loom::model::Builder::new();
+    b.preemption_bound = Some(3);
+    b.check(|| {
+        EXECUTIONS.fetch_add(1, std::sync::atomic::Ordering::Relaxed);
+        // no permit at all
+        let sem = std::sync::Arc::new(Semaphore::new(0));
+        let s2 = sem.clone();
+        let t = loom::thread::spawn(move || s2.try_acquire_arc());
+        let a = sem.try_acquire_arc();
+        let b = t.join().unwrap();
+        if a.is_some() || b.is_some() {
+            panic!("LOOM-VIOLATION sem_try_race: over-issue: try_acquire_arc returned a guard on a semaphore that never had a permit");
+        }
+        // one permit, a try_acquire_arc against the first poll of an acquire_arc future
+        let sem = std::sync::Arc::new(Semaphore::new(1));
+        let s2 = sem.clone();
+        let t = loom::thread::spawn(move || s2.try_acquire_arc());
+        let mut ta = Task::new(sem.acquire_arc());
+        ta.poll();
+        let b = t.join().unwrap();
+        if ta.out.is_some() && b.is_some() {
+            panic!("LOOM-VIOLATION sem_try_race: over-issue: two guards alive on a semaphore with one permit");
+        }
+        let holders = ta.out.is_some() as usize + b.is_some() as usize;
+        let free = sem.try_acquire_arc();
+        if holders == 0 && free.is_none() {
+            panic!("LOOM-VIOLATION sem_try_race: a permit vanished: nobody holds the only permit and try_acquire_arc fails");
+        }
+        drop(free);
+        drop(b);
+        drop(ta);
+    });
+}
+
+/// C02 / C11, schedule half: a write() future polled while the writer downgrades: a write guard never coexists
+/// with the read guard the downgrade produced.
+fn rw_downgrade_race() {
+    let mut b = loom::model::Builder::new();
+    b.preemption_bound = Some(3);
+    b.check(|| {
+        EXECUTIONS.fetch_add(1, std::sync::atomic::Ordering::Relaxed);
+        let l = std::sync::Arc::new(RwLock::new(0u32));
+        let w = l.try_write_arc().unwrap();
+        let t = loom::thread::spawn(move || async_lock::RwLockWriteGuardArc::downgrade(w));
+        let mut tw = Task::new(l.write_arc());
+        tw.poll();
+        let r = t.join().unwrap();
+        if tw.out.is_some() {
+            panic!("LOOM-VIOLATION rw_downgrade_race: exclusion: a write() future completed while the read guard produced by downgrade() is alive");
+        }
+        drop(r);
+        tw.settle();
+        if tw.pending() {
+            panic!("LOOM-VIOLATION rw_downgrade_race: lost wake-up: no guard is alive, every woken task has been polled again, a write() future is pending");
+        }
+        drop(tw);
+    });
+    let _ = |g: RwLockWriteGuard<'static, u32>| drop(g);
+}
+
+/// C01, schedule half, fair protocol: f1 is starved and listening, the lock is free, the non-starved f2 is notified
+/// at the head of the queue; f2's poll (which passes the notification on, starves, and finds the lock free but
+/// others starved) races with f1's poll: at most one of them may obtain the guard.
+fn mutex_fair_race() {
+    let mut b = loom::model::Builder::new();
+    b.preemption_bound = Some(3);
+    b.check(|| {
+        EXECUTIONS.fetch_add(1, std::sync::atomic::Ordering::Relaxed);
+        async_lock::verif::oracle_enable(true);
+        async_lock::verif::oracle_set(&[]);
+        let m = std::sync::Arc::new(Mutex::new(0u32));
+        let g0 = m.try_lock_arc().unwrap();
+        let mut t1 = Task::new(m.lock_arc());
+        let mut t2 = Task::new(m.lock_arc());
+        t1.poll();
+        t2.poll();
+        assert!(t1.pending() && t2.pending());
+        drop(g0); // f1 (head) notified
+        let g1 = m.try_lock_arc().unwrap(); // barging
+        async_lock::verif::oracle_set(&[true]);
+        t1.poll(); // consumes, loses the race, the clock says starved: f1 is starved and listens at the tail
+        assert!(t1.pending());
+        async_lock::verif::oracle_set(&[]);
+        drop(g1); // lock free (word 2); f2 (head, not starved) notified
+        let t = loom::thread::spawn(move || {
+            t2.poll();
+            t2
+        });
+        t1.poll(); // legal at any time
+        let mut t2 = t.join().unwrap();
+        if t1.out.is_some() && t2.out.is_some() {
+            panic!("LOOM-VIOLATION mutex_fair_race: exclusion: two lock_arc() futures returned a guard and both guards are alive");
+        }
+        // run to quiescence; whoever holds the guard releases it; in the end both have had the lock
+        for _ in 0..6 {
+            t1.settle();
+            t2.settle();
+            if t1.out.is_some() && t2.out.is_some() {
+                panic!("LOOM-VIOLATION mutex_fair_race: exclusion: two lock_arc() futures returned a guard and both guards are alive");
+            }
+            if let Some(g) = t1.out.take() { drop(g); t1.polled = false; }
+            if let Some(g) = t2.out.take() { drop(g); t2.polled = false; }
+        }
+        if t1.pending() || t2.pending() {
+            let free = m.try_lock_arc();
+            if free.is_some() {
+                panic!("LOOM-VIOLATION mutex_fair_race: lost wake-up: the mutex is free, every woken task has been polled again, a lock_arc() future is pending");
+            }
+        }
+        async_lock::verif::oracle_enable(false);
+        drop(t1);
+        drop(t2);
+    });
+}
+
 fn main() {
     let which = std::env::args().nth(1).unwrap_or_else(|| "all".to_string());
-    let tests: Vec<(&str, fn())> = vec![("sem_absorbed_release", sem_absorbed_release), ("mutex_stale_listener", mutex_stale_listener)];
+    let tests: Vec<(&str, fn())> = vec![
+        ("sem_absorbed_release", sem_absorbed_release),
+        ("mutex_stale_listener", mutex_stale_listener),
+        ("sem_try_race", sem_try_race),
+        ("rw_downgrade_race", rw_downgrade_race),
+        ("mutex_fair_race", mutex_fair_race),
+    ];
     for (name, f) in tests {
         if which == "all" || which == name {
             eprintln!("LOOM-RUN {}", name);
